@@ -51,4 +51,23 @@ def unhexlify (t : Text) : Outcome Bytes :=
   | some ns => if ns.length % 2 = 0 then .ok (nibblesToBytes ns) else .escape .binasciiError
   | none => .escape .binasciiError
 
+/-! ### binary text (`BitArray`) -/
+
+/-- minimal base-2 digits of `n` (`format(n, 'b')`), most significant first -/
+def binMin (n : Nat) : List Nat :=
+  if n < 2 then [n] else binMin (n / 2) ++ [n % 2]
+termination_by n
+decreasing_by omega
+
+/-- `'{v:0{w}b}'` as bits -/
+def fmtBinW (w v : Nat) : List Nat := if v < 2 ^ w then toDigits 2 w v else binMin v
+
+def binDigit? (c : Nat) : Option Nat := if c = 48 then some 0 else if c = 49 then some 1 else none
+
+/-- `int(t, 2)` on plain binary text (no sign / underscore / prefix / whitespace) -/
+def intBin (t : Text) : Outcome Nat :=
+  match t.mapM binDigit? with
+  | some (n :: ns) => .ok (fromDigits 2 (n :: ns))
+  | _ => .escape .valueError
+
 end Cardutil.Pin
